@@ -36,9 +36,7 @@ def worker_init(tier):
     _tier[0] = tier
     import rnapolis.annotator as ann
 
-    if hasattr(ann, "KDTree"):
-        ann.KDTree = seams.make_scheduled_kdtree()
-        _seam[0] = True
+    _seam[0] = seams.install_pair_order_seam(ann)
 
 
 def BOUNDS(tier):
